@@ -1,5 +1,5 @@
 """C01 - generated parsers implement PEG semantics for the core expressions."""
-from contracts import core, segments, rt_run, rt_final
+from contracts import core, segments, rt_run, rt_final, spellings
 from pyvc.report import Report
 from .common import run_fragments, run_rt
 from . import wiring
@@ -11,6 +11,8 @@ def run(tier, seed):
                      'for all inputs, positions and child behaviours, to implement the documented PEG meaning (ok/value/end), '
                      'to report failures consistently with its static flags (G-as, G-cps), to stay in range and to write only its own temporaries.')
     run_fragments(rep, core.CORE, tier)
+    # the spellings of the statement (`?`, `*`, `+`, `>>`, `<<`, `|`, `[a, b]` and their constructor forms) as the real front end builds them
+    run_fragments(rep, [spellings.SpelledDiscardC(), spellings.SpelledOptC(), spellings.SpelledChoiceC(), spellings.SpelledSeqC(), spellings.SpelledListC()], tier)
     # arbitrary arity: segment induction for Choice, closure checks for Seq (section 0, deviation 4)
     segments.ChoiceSegments().run(rep, tier)
     segments.LongestSegments().run(rep, tier)
